@@ -836,4 +836,8 @@ B('HO-leaf-popped-offset', ['C05', 'C04'], 'index_level.py', 'IndexLevel.loc_to_
 N('HO-accumulate-commuted', ['C05', 'C04'], 'index_level.py', 'IndexLevel.loc_to_iloc',
   'next_offset = offset + level.offset', 'next_offset = level.offset + offset')
 
+# ---------------------------------------------------------------------------------- equals and NaT (C10)
+B('NK-equals-skipna-kind-gated', ['C10'], 'type_blocks.py', 'TypeBlocks.equals',
+  '        if skipna:\n            isna_self = self.isna(include_none=False)', '        if skipna and self._row_dtype is not None:\n            skipna = self._row_dtype.kind in DTYPE_INEXACT_KINDS or self._row_dtype.kind == DTYPE_OBJECT.kind\n        if skipna:\n            isna_self = self.isna(include_none=False)', 'I.nullable-kinds', 'TypeBlocks.equals')
+
 VARIANTS = V
